@@ -410,7 +410,7 @@ func (r *Report) Finish() {
 			fmt.Printf("  (%d more violations with sig=%s)\n", n-2, s)
 		}
 	}
-	if exit == 0 && len(r.Inconclusive) > 0 {
+	if len(r.Inconclusive) > 0 {
 		for i, w := range r.Inconclusive {
 			if i < 10 {
 				fmt.Printf("INCONCLUSIVE property=%s %s\n", r.Prop, w)
